@@ -14,7 +14,9 @@ PROPS = {
     "C06": {"kani": [{"module": "c06", "profiles": Q_DEV_T_BOTH}, ponly("c06")]},
     "C07": {"kani": [{"module": "c07", "profiles": Q_DEV_T_BOTH}, ponly("c07")], "unwind": True},
     "C14": {"kani": [{"module": "c14", "profiles": Q_DEV}]},
-    "C15": {"kani": [{"module": "c15", "profiles": Q_DEV_T_BOTH}, ponly("c15")]},
+    "C15": {"kani": [{"module": "c15", "profiles": Q_DEV_T_BOTH}, ponly("c15"),
+                     # the uninit slice constructors for EVERY length: the request is the reference layout or refused (both profiles)
+                     {"module": "c05", "profiles": {"quick": ["dev", "nodebug"], "thorough": ["dev", "nodebug"]}, "filters": ["c05::qp_layout_only_new_uninit_slice", "c05::qp_layout_only_u8_u32", "c05::qp_layout_only_u8_s5a16"]}]},
     "C17": {"kani": [{"module": "c17", "profiles": Q_DEV}]},
     "C10": {"kani": [{"module": "c10", "profiles": Q_DEV_T_BOTH}, ponly("c10"), {"module": "c07", "profiles": {"quick": ["dev", "nodebug"], "thorough": ["dev", "nodebug"]}, "filters": ["c07::qp_thin_"]}], "unwind": ["ThinArc::with_arc_mut", "ThinArc::with_arc", "Arc::into_thin"]},
     "C11": {"kani": [{"module": "c11", "profiles": Q_DEV}],
@@ -22,7 +24,9 @@ PROPS = {
             # the pointer must still lead to the same allocation with the same count
             "unwind": ["OffsetArc::with_arc", "OffsetArc::make_mut", "Arc::with_raw_offset_arc", "ArcBorrow::with_arc"]},
     "C12": {"kani": [{"module": "c12", "profiles": Q_DEV}]},
-    "C05": {"kani": [{"module": "c05", "profiles": Q_DEV_T_BOTH}, ponly("c05")]},
+    "C05": {"kani": [{"module": "c05", "profiles": Q_DEV_T_BOTH}, ponly("c05"),
+                     # a ThinArc whose recorded length is wrong releases its block with a wrong layout: into_thin must refuse (both profiles)
+                     {"module": "c10", "profiles": {"quick": ["dev", "nodebug"], "thorough": ["dev", "nodebug"]}, "filters": ["c10::qp_into_thin_mismatch"]}]},
     "C04": {"kani": [{"module": "c04", "profiles": Q_DEV},
                      # count bookkeeping of the operations that redirect or consume a handle (harnesses shared with C08 / C09)
                      {"module": "c08", "profiles": Q_DEV, "filters": ["c08::q_arc_make_mut", "c08::q_arc_make_unique", "c08::q_offset_make_mut"]},
